@@ -139,7 +139,7 @@ def handleVmhist : List Sexp → Sexp
           | some env, some p =>
             let c : Cfg := { world := mkWorld (regexTable rx), env := env, budget := b, defects := defectsOfSexp defects }
             let (res, s') := runOn c p 2000000 s
-            go rest { s' with log := [], created := 0 } (outcomeToSexp (res, s') :: acc)
+            go rest s' (outcomeToSexp (res, s') :: acc)
           | _, _ => go rest s (.list [.atom "bad-request"] :: acc)
         | _ :: rest, s, acc => go rest s (.list [.atom "bad-request"] :: acc)
       .list (.atom "hist" :: go runs {} [])
